@@ -207,6 +207,14 @@ func hfOpsKey(ops []hfOp) string {
 	return strings.Join(s, ">")
 }
 
+// hfLastOp names a failing history in violation keys: the operation after which the table first differs.
+func hfLastOp(ops []hfOp) string {
+	if len(ops) == 0 {
+		return "boot"
+	}
+	return hfOpNames[ops[len(ops)-1].Kind]
+}
+
 func hfOpsText(ops []hfOp) string {
 	if len(ops) == 0 {
 		return "boot"
@@ -503,12 +511,16 @@ func opsOf(o ...hfOp) []hfOp { return o }
 
 // hfBaseSeqs: the operation sequences every configuration of the family is taken through (the request table is
 // served after boot and after EVERY operation of every sequence).
-func hfBaseSeqs(n int) [][]hfOp {
+func hfBaseSeqs(n int) [][]hfOp { return hfSeqs(n, true) }
+
+// hfSeqs: full = false leaves out the refused-reload and reversed-order sequences (quick tier, 3-route lists).
+func hfSeqs(n int, full bool) [][]hfOp {
 	seqs := [][]hfOp{
 		opsOf(op(hoReload), op(hoReload), op(hoComment)),
 		opsOf(op(hoComment), op(hoAppendPull), op(hoReload)),
-		opsOf(op(hoAppendDeliver), op(hoReload)),
-		opsOf(op(hoReverse), op(hoReload), op(hoReverse)),
+	}
+	if full {
+		seqs = append(seqs, opsOf(op(hoAppendDeliver), op(hoReload)), opsOf(op(hoReverse), op(hoReload), op(hoReverse)))
 	}
 	for i := 0; i < n; i++ {
 		seqs = append(seqs, opsOf(opLabel(i), op(hoReload), op(hoUnlabel)))
@@ -565,8 +577,10 @@ func hfLabelledSeqs(n, labelled int) [][]hfOp {
 }
 
 var (
-	hfChainPaths = []int{3, 0, 1}    // "/", "/a", "/a/b": every pair overlaps
-	hfAllPaths   = []int{3, 0, 1, 2} // plus the sibling "/ab"
+	// most specific first: lists whose catch-all comes last are the ones in which the position of every route is
+	// observable (behind a leading catch-all nothing else is), so a wall budget cuts the less telling lists
+	hfChainPaths = []int{1, 0, 3}    // "/a/b", "/a", "/": every pair overlaps
+	hfAllPaths   = []int{1, 0, 2, 3} // plus the sibling "/ab"
 	hfSpells4    = []int{hsBare, hsInWrap, hsOutShort, hsIntWrap}
 	hfSpells7    = []int{hsBare, hsInWrap, hsOutShort, hsIntWrap, hsInShort, hsOutWrap, hsIntShort}
 )
@@ -583,7 +597,7 @@ func hfConfigs(thorough bool) []hfCfg {
 	}
 	for n := 1; n <= 3; n++ { // shortest lists first: a wall budget cuts the longest
 		hfLists(paths, hfShapes(hfSpells4), n, n, func(routes []hfRoute) {
-			seqs := hfBaseSeqs(n)
+			seqs := hfSeqs(n, thorough || n < 3)
 			if thorough {
 				seqs = append(seqs, hfMoreSeqs(n)...)
 			}
@@ -924,8 +938,9 @@ func runHistoryFamily(r *runner.Run, m *memo, deadline time.Time) bool {
 		return a.qi < b.qi
 	})
 
-	// Naming: operation kinds applied since boot + kind of mismatch. A history one of whose strict prefixes already
-	// fails on the same configuration is only a further witness of that prefix.
+	// Naming: the operation after which the table first differs + kind of mismatch (the whole history is in the
+	// message and the replay file). A history one of whose strict prefixes already fails on the same configuration is
+	// only a further witness of that prefix.
 	failing := map[string]bool{}
 	for _, f := range fails {
 		failing[fmt.Sprintf("%d|%v", f.ci, cfgs[f.ci].seqs[f.si][:f.k])] = true
@@ -945,7 +960,7 @@ func runHistoryFamily(r *runner.Run, m *memo, deadline time.Time) bool {
 		q := reqs[f.qi]
 		// the file the harness wrote plus what it appended (for the channel of a route that was reached)
 		file := append([]hfRoute(nil), c.Routes...)
-		key := "history:" + hfOpsKey(ops) + ":" + hfMismatch(file, f.e, f.o)
+		key := "history:after-" + hfLastOp(ops) + ":" + hfMismatch(file, f.e, f.o)
 		rank := int64(f.ci)<<32 | int64(f.k)<<28 | int64(f.si)<<20 | int64(f.qi)
 		if old, ok := finds[key]; ok && old.Rank <= rank {
 			continue
@@ -1035,7 +1050,7 @@ func replayHistory(r *runner.Run, data []byte, m *memo) (ok bool) {
 			ReqRaw: q.raw(), Remote: reqRemotes[q.Remote], Expect: e, Got: o, Interp: m.ip, RefOrder: hfRoutesText(c.Routes)}
 		key := doc.Key
 		if key == "" {
-			key = "history:" + hfOpsKey(ops) + ":" + hfMismatch(l.file, e, o)
+			key = "history:after-" + hfLastOp(ops) + ":" + hfMismatch(l.file, e, o)
 		}
 		r.Violation(key, f.message(), f, nil)
 	}
